@@ -19,16 +19,21 @@ def proto_cmd(a, obs=None):
     if k == "run":
         return "run %s %d" % (a["task"], a.get("id", 0))
     if k == "connect":
+        if "side" in a:          # device mode: left (requesters) or right (repliers) socket
+            return "connect %d %s" % (a["p"], a["side"])
         return "connect %d%s" % (a["p"], (" %d" % a["peer"]) if "peer" in a else "")
     if k == "take":
         return "take %d" % a["p"]
     if k == "inject":
         hopval = {"h1": 1, "h8": 8, "h9": 9, "h255": 255, "h256": 256, "h300": 300, "hTop": 0x80000000, "hMax": 0xffffffff}
         words = "".join(" w%d" % hopval.get(w, w) for w in a.get("hdr", []))
+        if "words" in a:         # device mode: the complete wire image as [kind, n] words
+            ws = "".join(" w%s%d" % ("" if w[0] == "h" else w[0], w[1]) for w in a["words"])
+            return "inject %d -%s" % (a["p"], ws)
         if "hdrw" in a:
             words = "".join(" w%s" % (w[1:] if w[0] == "h" else w) for w in a["hdrw"])
         if "rkind" in a:
-            words = {"cur": " wr%d" % a["rtag"], "old": " wr%d" % a["rtag"], "nobit": " wn%d" % a["rtag"], "unknown": " wu", "short": ""}[a["rkind"]]
+            words = {"cur": " wr%d" % a["rtag"], "old": " wr%d" % a["rtag"], "unsent": " wr%d" % a["rtag"], "nobit": " wn%d" % a["rtag"], "unknown": " wu", "short": ""}[a["rkind"]]
         return "inject %d %s%s" % (a["p"], "-" if a.get("short") else a["m"], words)
     if k in ("peer_close", "pipe_close"):
         return "%s %d" % (k, a["p"])
@@ -77,6 +82,10 @@ def sig_proto(proto):
 def replay_proto(v, proto, raw, spec, cfg, rng, maxlen=30, nrandom=300, limit=None, timeout=1500, chunk=150, auto=False,
                  sig_override=None, setup=()):
     exe = build_driver("drv_proto", DRV)
+    sc = getattr(v, "scale", 1.0)
+    if sc != 1.0:     # aggregate checks (C03, C15) replay a fraction of every protocol's walks
+        limit = max(100, int((limit or 6000) * sc))
+        nrandom = max(20, int(nrandom * sc))
     g = tlc_edges(spec, cfg, timeout=timeout)
     v.cov["states"] += g["distinct"]
     v.cov["transitions"] += len(g["edges"])
@@ -84,24 +93,25 @@ def replay_proto(v, proto, raw, spec, cfg, rng, maxlen=30, nrandom=300, limit=No
     extra = random_walks(g, rng, nrandom, maxlen * 2)
     n = replay_walks(v, g, walks + extra, exe, "x", lambda a, o=None: proto_cmd(a), lambda ia: "", spec + ":" + cfg,
                      sig_of=sig_override or sig_proto(proto), check_fin=False, chunk=chunk,
-                     prelude=("auto 1\n" if auto else "") + "proto %s %d" % (proto, 1 if raw else 0) + "".join("\n!" + x for x in setup))
+                     prelude=("auto 1\n" if auto else "") + "proto %s %s" % (proto, raw if isinstance(raw, str) else (1 if raw else 0)) + "".join("\n!" + x for x in setup))
     log("%s: %d/%d edges covered by %d walks (+%d random), %d validated" % (spec, covered, total, len(walks), len(extra), n))
     v.cov.setdefault("edge_cover", {})[spec + ":" + cfg] = dict(edges=total, covered=covered, walks=len(walks),
                                                                random_walks=len(extra), validated=n, states=g["nstates"])
     return n, total, covered
 
 
-def replay_sim(v, proto, raw, spec, cfg, nsim, depth, auto=False, timeout=1500, chunk=150, setup=()):
+def replay_sim(v, proto, raw, spec, cfg, nsim, depth, auto=False, timeout=1500, chunk=150, setup=(), sig_override=None):
     """Random behaviours generated by TLC -simulate (for graphs too large to export completely)."""
     exe = build_driver("drv_proto", DRV)
+    nsim = max(100, int(nsim * getattr(v, "scale", 1.0)))
     g = tlc_edges(spec, cfg, timeout=timeout, simulate=nsim, depth=depth, seed=v.seed, cache=False)
     v.cov["transitions"] += len(g["edges"])
     v.cov["states"] += g["nstates"]
     walks = [w for w in g["walks"] if w]
     n = replay_walks(v, g, walks, exe, "x", lambda a, o=None: proto_cmd(a), lambda ia: "", spec + ":" + cfg,
-                     sig_of=sig_proto(proto), check_fin=False, chunk=chunk, linear=True,
-                     prelude=("auto 1\n" if auto else "") + "proto %s %d" % (proto, 1 if raw else 0) + "".join("\n!" + x for x in setup))
+                     sig_of=sig_override or sig_proto(proto), check_fin=False, chunk=chunk, linear=True,
+                     prelude=("auto 1\n" if auto else "") + "proto %s %s" % (proto, raw if isinstance(raw, str) else (1 if raw else 0)) + "".join("\n!" + x for x in setup))
     log("%s: %d simulated behaviours (depth %d), %d validated" % (spec, len(walks), depth, n))
-    v.cov.setdefault("edge_cover", {})[spec + ":" + cfg] = dict(edges=len(g["edges"]), covered=len(g["edges"]), walks=len(walks),
+    v.cov.setdefault("edge_cover", {})[spec + ":" + cfg + ("@" + raw if isinstance(raw, str) else "") + ("@" + proto if proto == "respondent" else "")] = dict(edges=len(g["edges"]), covered=len(g["edges"]), walks=len(walks),
                                                                random_walks=0, validated=n, states=g["nstates"])
     return n
